@@ -138,6 +138,7 @@ class App(object):
 
     def __init__(self, handler):
         from clastic import Application, Middleware, Route, GET, POST, render_json
+        from clastic.middleware import SimpleProfileMiddleware
         from clastic import errors
         from werkzeug.wrappers import Response
         self.errors = errors
@@ -242,6 +243,7 @@ class App(object):
         self.app = AppType([Route('/r', ep_ctx, rn), Route('/n', ep_resp), GET('/item', ep_resp),
                             POST('/item', lambda: Response('posted')), Route('/sum/<nums+int>', ep_nums),
                             Route('/num/<n:int>', ep_n), Route('/flt/<n?float>/x', ep_n), Route('/br/', ep_resp),
+                            Route('/prof', ep_resp, middlewares=[SimpleProfileMiddleware()]),
                             Route('/jsonbad', lambda: {'o': object(), 'g': (x for x in [1])}, render_json),
                             Route('/jsonbad2', lambda: {1: object()}, render_json)],
                            middlewares=[mk(0), mk(1), mk(2)], **kw)
@@ -381,9 +383,12 @@ HIST_ALPHABET = [
     ('GET', '/r', ('raise', 'StrRaises', 'ascii'), 'rn'),
     ('GET', '/r', ('return', 'none'), 'm2.render.before'),
     ('OTHER-APP', 'reraise', None, None),      # another, default-configured Application in the process is made to re-raise
+    ('GET', ('/prof', '_prof=1'), None, None),                              # a profiled request (SimpleProfileMiddleware)
+    ('GET', ('/prof', '_prof=1'), ('raise', 'ValueError', 'ascii'), 'ep'),  # a profiled request whose endpoint fails
+    ('GET', ('/prof', '_prof=1'), ('http', 'NotFound', 'raise', True), 'ep'),
 ]
 PROBES = [('GET', '/r'), ('GET', '/n'), ('GET', '/item'), ('POST', '/item'), ('PUT', '/item'), ('GET', '/nope'),
-          ('HEAD', '/item'), ('GET', '/sum/1/x/2'), ('BOOM', '/r')]
+          ('HEAD', '/item'), ('GET', '/sum/1/x/2'), ('BOOM', '/r'), ('GET', ('/prof', '_prof=1')), ('GET', ('/prof', ''))]
 
 
 def probe(A):
@@ -395,6 +400,11 @@ def probe(A):
             r = wsgi.call(A.app, p, 'GET')
             A.ctl.beh = None
             out.append((m, p, r.status, (r.body or b'')[:40], None, repr(r.raised) if r.raised else None))
+            continue
+        if isinstance(p, tuple):
+            # (the profile report in the body is different every time: status only)
+            r = wsgi.call(A.app, p[0], m, query=p[1])
+            out.append((m, p, r.status, None if p[1] else r.body, None, repr(r.raised) if r.raised else None))
             continue
         r = wsgi.call(A.app, p, m)
         out.append((m, p, r.status, r.body, r.header('Allow'), repr(r.raised) if r.raised else None))
@@ -410,7 +420,7 @@ def send(A, letter):
         other.serve(_jk_just_testing=True, use_meta=False, use_static=False, use_reloader=False)
         return wsgi.call(other, '/boom', 'GET')
     A.ctl.where, A.ctl.beh, A.ctl.raised, A.ctl.fired = where, beh, None, False
-    r = wsgi.call(A.app, p, m)
+    r = wsgi.call(A.app, p[0], m, query=p[1]) if isinstance(p, tuple) else wsgi.call(A.app, p, m)
     A.ctl.beh = None
     return r
 
